@@ -13,7 +13,8 @@ Open Scope Q_scope.
    CCat: CategoricalCalibration (buckets, default_input_value), per unit the index.
    CKfl: KroneckerFactoredLattice, ONE unit: per-dimension input, scale per term,
      kernel per term K[t][d][k], bias; implementation output, tape gradient
-     w.r.t. that unit's kernel (same layout) and scales. *)
+     w.r.t. that unit's kernel (same layout), scales, and inputs (None for an
+     input that sits on a kink of its interpolation weights). *)
 Inductive case :=
 | CProd (rows : list (list Q)) (dys : list Q) (fwd : list Q) (grad : list (list Q))
 | CHyper (clip as_list : bool) (sizes : list nat) (xs : list (list Q)) (grads : list (list (list Q)))
@@ -21,7 +22,7 @@ Inductive case :=
 | CPwl (cyclic : bool) (kps lens : list Q) (xs : list Q) (missing : list Q) (grads : list (list (list Q)))
 | CCat (nb : nat) (default : option Z) (idx : list Z) (grads : list (list (list Q)))
 | CKfl (clip : bool) (size : nat) (x : list Q) (bias : Q) (scales : list Q) (Ks : list (list (list Q)))
-       (out : Q) (gK : list (list (list Q))) (gscale : list Q).
+       (out : Q) (gK : list (list (list Q))) (gscale : list Q) (gx : list (option Q)).
 
 Definition tol32 : Q := 1 # 100000.
 Definition tol64 : Q := 1 # 1000000000.
@@ -33,6 +34,14 @@ Fixpoint qcube_close (tol : Q) (a b : list (list (list Q))) : bool :=
   match a, b with
   | [], [] => true
   | x :: a', y :: b' => qmat_close tol x y && qcube_close tol a' b'
+  | _, _ => false
+  end.
+
+Fixpoint optlist_close (tol : Q) (a : list Q) (b : list (option Q)) : bool :=
+  match a, b with
+  | [], [] => true
+  | x :: a', Some y :: b' => qclose tol x y && optlist_close tol a' b'
+  | _ :: a', None :: b' => optlist_close tol a' b'
   | _, _ => false
   end.
 
@@ -51,10 +60,11 @@ Definition check (c : case) : bool :=
       Nat.eqb (length xs) (length missing)
   | CCat nb default idx grads =>
       all_close tol64 (map (cat_weights nb default) idx) grads
-  | CKfl clip size x bias scales Ks out gK gscale =>
+  | CKfl clip size x bias scales Ks out gK gscale gx =>
       let ws := map (kfl_w1d clip size) x in
       let T := length scales in
       qclose tol32 (kfl_out ws bias scales Ks) out &&
       qcube_close tol32 (map2 (kfl_grad_kernel ws T) scales Ks) gK &&
-      qlist_close tol32 (map (kfl_grad_scale ws T) Ks) gscale
+      qlist_close tol32 (map (kfl_grad_scale ws T) Ks) gscale &&
+      optlist_close tol32 (kfl_grad_input ws (map (kfl_dw1d clip size) x) scales Ks) gx
   end.
